@@ -504,22 +504,22 @@ def ro_staking(t, cexpr, name, req='', cache=False, dist=False):
     if cache:
         mods.append(f'{cexpr}.cacheStakingMetadata')
     if dist:
-        # the querier runs on a cache context (fresh layer, prelude/47_cpc2_cachectx.spec): the only entries written are
-        # those of a layer id that was not handed out before the call
+        # the querier runs on a cache context (a child layer, prelude/40_statedb_context.spec: one level deeper than the
+        # call's layer): the only entries written are those of that child
         mods.append('distVersion')
-        mods.append('layerLive')
     w('//@   modifies ' + (', '.join(mods) if mods else 'nothing'))
     if dist:
         w(f'//@   ensures[C12.ro_world_unchanged] {WORLD_SAME_NODIST}')
-        w('//@   ensures[C12.ro_distribution_unchanged] distVersion[layer(env.ctx)] == old(distVersion[layer(env.ctx)]) && (forall l int :: old(layerLive[l]) ==> distVersion[l] == old(distVersion[l]))')
+        w('//@   ensures[C12.ro_distribution_unchanged] distVersion[layer(env.ctx)] == old(distVersion[layer(env.ctx)]) && (forall l int :: lyrDepth(l) <= lyrDepth(layer(env.ctx)) ==> distVersion[l] == old(distVersion[l]))')
     else:
         w(f'//@   ensures[C12.ro_world_unchanged] {WORLD_SAME}')
     w()
 w('''// rewardOf / rewardsOf / balanceOf read the pending rewards through the x/distribution gRPC querier, which WRITES
 // (IncrementValidatorPeriod). Clause C12.ro_distribution_unchanged is the part of "a read-only method writes nothing" that
-// concerns x/distribution: the x/distribution state of the call's own layer, and of every store layer that existed when the
-// call started, is unchanged (the only entries that may change belong to a layer created during the call and never
-// written back). It FAILS when the querier is run on the live context (finding F-cpc-2, docs/findings-cpc.md); it holds
+// concerns x/distribution: the x/distribution state of the call's own layer, and of every store layer that is not deeper
+// than it (the layer itself, all its ancestors — i.e. every layer whose content can still be committed — and their
+// siblings), is unchanged: the only entries that may change belong to a child layer created during the call and never
+// written back. It FAILS when the querier is run on the live context (finding F-cpc-2, docs/findings-cpc.md); it holds
 // when the querier runs on a cache context whose write function is dropped (fix candidate, docs/findings-cpc2.md).''')
 ro_staking('stakingCustomPrecompiledContractRoRewardOf', SC, 'rewardOf', dist=True)
 ro_staking('stakingCustomPrecompiledContractRoRewardsOf', SC, 'rewardsOf', dist=True)
